@@ -73,3 +73,69 @@ Proof.
   destruct (parse_u64 t); [|discriminate]. destruct (parse_ranges toks n) as [[rs r']|]; [|discriminate].
   destruct (compact rs) as [c'|] eqn:E; [|discriminate]. inversion H; subst. eapply compact_is_compact; eassumption.
 Qed.
+
+(* ---------- the index loop of RangeList::compact equals the list version: its two `expect`s are unreachable ---------- *)
+Lemma set_nth_app_r : forall A (d : list A) x y t, set_nth (length d) x (d ++ y :: t) = d ++ x :: t.
+Proof. intros A d x y t. induction d as [|h d IH]; cbn [length app set_nth]; [reflexivity|]. rewrite IH. reflexivity. Qed.
+
+Lemma nth_error_app_len : forall A (d : list A) y t, nth_error (d ++ y :: t) (length d) = Some y.
+Proof. intros A d y t. induction d as [|h d IH]; cbn [length app nth_error]; [reflexivity|exact IH]. Qed.
+
+Lemma firstn_app_len1 : forall A (d : list A) y t, firstn (length d + 1) (d ++ y :: t) = d ++ [y].
+Proof. intros A d y t. induction d as [|h d IH]; cbn [length app firstn Nat.add]; [reflexivity|]. rewrite IH. reflexivity. Qed.
+
+Lemma nth_error_at : forall A (d : list A) y t n, n = length d -> nth_error (d ++ y :: t) n = Some y.
+Proof. intros; subst; apply nth_error_app_len. Qed.
+
+Lemma set_nth_at : forall A (d : list A) x y t n, n = length d -> set_nth n x (d ++ y :: t) = d ++ x :: t.
+Proof. intros; subst; apply set_nth_app_r. Qed.
+
+Lemma compact_loop_inv : forall rest f done cur junk, (length rest < f)%nat ->
+  compact_loop f (done ++ cur :: junk ++ rest) (length done) (length done + 1 + length junk) =
+  match merge_ranges cur rest with
+  | Some l => CDone (done ++ l)
+  | None => CPanicOverflow
+  end.
+Proof.
+  induction rest as [|e rest IH]; intros f done cur junk Hf; (destruct f as [|f]; [cbn in Hf; lia|]); cbn [compact_loop merge_ranges].
+  - rewrite app_nil_r.
+    rewrite (proj2 (nth_error_None (done ++ cur :: junk) (length done + 1 + length junk)))
+      by (rewrite app_length; cbn [length]; lia).
+    rewrite firstn_app_len1. reflexivity.
+  - assert (E1 : done ++ cur :: junk ++ e :: rest = (done ++ cur :: junk) ++ e :: rest) by (rewrite <- app_assoc; reflexivity).
+    rewrite E1 at 1. rewrite (nth_error_at _ (done ++ cur :: junk) e rest) by (rewrite app_length; cbn [length]; lia).
+    rewrite (nth_error_at _ done cur (junk ++ e :: rest)) by reflexivity.
+    destruct (usize_max <=? snd cur); [reflexivity|].
+    destruct (fst e <=? snd cur + 1).
+    + rewrite (set_nth_at _ done _ cur (junk ++ e :: rest)) by reflexivity.
+      replace (junk ++ e :: rest) with ((junk ++ [e]) ++ rest) by (rewrite <- app_assoc; reflexivity).
+      replace (S (length done + 1 + length junk)) with (length done + 1 + length (junk ++ [e]))%nat
+        by (rewrite app_length; cbn [length]; lia).
+      apply IH. cbn [length] in Hf. lia.
+    + assert (E2 : done ++ cur :: junk ++ e :: rest = (done ++ [cur]) ++ (junk ++ e :: rest)) by (rewrite <- app_assoc; reflexivity).
+      rewrite E2.
+      destruct junk as [|j junk]; cbn [app].
+      * rewrite (nth_error_at _ (done ++ [cur]) e rest) by (rewrite app_length; cbn [length]; lia).
+        rewrite (set_nth_at _ (done ++ [cur]) e e rest) by (rewrite app_length; cbn [length]; lia).
+        replace (S (length done)) with (length (done ++ [cur])) by (rewrite app_length; cbn [length]; lia).
+        replace (S (length done + 1 + length (@nil range))) with (length (done ++ [cur]) + 1 + length (@nil range))%nat
+          by (rewrite app_length; cbn [length]; lia).
+        pose proof (IH f (done ++ [cur]) e [] ltac:(cbn [length] in Hf; lia)) as R. cbn [app] in R. rewrite R.
+        destruct (merge_ranges e rest); [rewrite <- app_assoc; reflexivity|reflexivity].
+      * rewrite (nth_error_at _ (done ++ [cur]) j (junk ++ e :: rest)) by (rewrite app_length; cbn [length]; lia).
+        rewrite (set_nth_at _ (done ++ [cur]) e j (junk ++ e :: rest)) by (rewrite app_length; cbn [length]; lia).
+        replace (S (length done)) with (length (done ++ [cur])) by (rewrite app_length; cbn [length]; lia).
+        replace (junk ++ e :: rest) with ((junk ++ [e]) ++ rest) by (rewrite <- app_assoc; reflexivity).
+        replace (S (length done + 1 + length (j :: junk))) with (length (done ++ [cur]) + 1 + length (junk ++ [e]))%nat
+          by (rewrite !app_length; cbn [length]; lia).
+        rewrite (IH f (done ++ [cur]) e (junk ++ [e]) ltac:(cbn [length] in Hf; lia)).
+        destruct (merge_ranges e rest); [rewrite <- app_assoc; reflexivity|reflexivity].
+Qed.
+
+Theorem compact_idx_faithful : forall l,
+  compact_idx l = match compact l with Some c => CDone c | None => CPanicOverflow end.
+Proof.
+  intros l. unfold compact_idx, compact. cbv zeta. destruct (sort_ranges (map norm_range l)) as [|c r]; [reflexivity|].
+  pose proof (compact_loop_inv r (S (length (c :: r))) [] c [] ltac:(cbn [length]; lia)) as R.
+  cbn [app length Nat.add] in R |- *. rewrite R. destruct (merge_ranges c r); reflexivity.
+Qed.
